@@ -168,6 +168,7 @@ func rulesC06(r *Run) {
 	groupResultReturned(r, "R4", "runPreChecks", 2)
 	ruleFailBranchStatus(r, "R4", smKey("BlockPreChecks"), smKey("runPreChecks"), "workflow.Block")
 	ruleJoinJ1(r, "R4", smKey("runPreChecks"), smKey("runBypasses")) // a gate that returns before joining its checks drops their verdict
+	ruleParallelVerdict(r, "R4")
 	ruleSkipRecoveredChecks(r, "R4")
 	ruleGateRunsContChecks(r, "R4", smKey("PlanPreChecks"), "workflow.Plan")
 	ruleGateRunsContChecks(r, "R4", smKey("BlockPreChecks"), "workflow.Block")
@@ -372,7 +373,8 @@ func rulesC07(r *Run) {
 	r.Kind("R3", "K2")
 	ruleRunChecksOnce(r, "R3")
 	ruleRunStartsFromEmptyAttempts(r, "R3")
-	r.Expect("R3", 4)
+	ruleParallelVerdict(r, "R3")
+	r.Expect("R3", 6)
 
 	r.Kind("R4", "K1")
 	m := planMachine(r, "R4")
